@@ -5,7 +5,7 @@ import time
 from lib import scen as S, runner
 from lib.common import build_props
 
-GROUPS = ['GenStruct', 'GenAsync']
+GROUPS = ['GenStruct', 'GenAsync', 'GenObserve']
 HELPERS = ('resource_tracker import main', 'forkserver import main')
 POOL_THREADS = ('_results_handler', '_restart_handler', '_timeout_handler', '_unexpected_death_handler', '_progress_bar_handler',
                 'join_task_queues')
